@@ -65,6 +65,7 @@ struct World {
     next_uid: u64,
     delivered: Vec<Value>,         // every htlc event delivered so far (for replays after a crash)
     answered: Vec<u64>,
+    resolved: Vec<u64>,
 }
 
 impl World {
@@ -160,7 +161,7 @@ impl World {
             out.push(json!({"o": "cancel", "h": hi, "c": l}));
         }
         let rs: Vec<(u64, Value)> = self.responses.lock().unwrap().drain(..).collect();
-        for (uid, r) in rs { self.answered.push(uid); out.push(json!({"o": "resp", "uid": uid, "r": r})); }
+        for (uid, r) in rs { self.answered.push(uid); if r.get("result").and_then(|x| x.as_str()) == Some("resolve") { self.resolved.push(uid); } out.push(json!({"o": "resp", "uid": uid, "r": r})); }
         let ns: Vec<Vec<u8>> = self.notes.lock().unwrap().drain(..).collect();
         for h in ns { let hi = self.hidx(&h); out.push(json!({"o": "notify", "h": hi})); }
         let p = PANICS.load(Ordering::SeqCst);
@@ -192,8 +193,13 @@ async fn apply(w: &mut World, mgr: &Arc<Mgr>, ev: &Value) -> (bool, Option<Value
     let kind = ev["e"].as_str().unwrap();
     match kind {
         "htlc" => {
-            let req: Result<HtlcAcceptedRequest, _> = serde_json::from_value(ev["req"].clone());
+            let rv = ev["req"].clone();
             let uid = ev["uid"].as_u64().unwrap();
+            let req: Result<HtlcAcceptedRequest, ()> = match guarded(move || serde_json::from_value::<HtlcAcceptedRequest>(rv)) {
+                Some(Ok(r)) => Ok(r),
+                Some(Err(_)) => Err(()),
+                None => { return (true, None); } // the request decoder itself panicked: counted by the panic hook
+            };
             match req {
                 Ok(req) => {
                     let m = mgr.clone();
@@ -230,7 +236,6 @@ async fn apply(w: &mut World, mgr: &Arc<Mgr>, ev: &Value) -> (bool, Option<Value
                     None => { if is_pay { n.calls[ci].status = CStat::Running; } }
                 }
                 // remember the virtual time of processing (used to age a Pending record)
-                if let Some(Reply::State(Some((raw, g, t)))) = &r { let now = n.vnow_ms; n.calls[ci].issue_ms = now; }
                 r
             };
             let cr = w.canon_reply(&h, &reply);
@@ -244,7 +249,7 @@ async fn apply(w: &mut World, mgr: &Arc<Mgr>, ev: &Value) -> (bool, Option<Value
                 let ci = match find_call(&n, &h, c) { Some(ci) => ci, None => return (false, None) };
                 if n.calls[ci].status != CStat::Replied || n.calls[ci].epoch != n.epoch { return (false, None); }
                 n.calls[ci].status = CStat::Delivered;
-                let proc_ms = n.calls[ci].issue_ms;
+                let proc_ms = n.vnow_ms; // the age of a Pending record is taken at delivery time
                 (n.calls[ci].tx.take(), n.calls[ci].reply.clone(), proc_ms)
             };
             let (tx, mut reply, proc_ms) = tx_reply;
@@ -437,6 +442,8 @@ fn htlc_event(w: &mut World, spec: &Value) -> Value {
     let uid = w.next_uid; w.next_uid += 1;
     let mut e = spec.clone();
     e["uid"] = json!(uid);
+    if e.get("orig").is_none() { e["orig"] = json!(uid); }
+    e["epoch"] = json!(w.node.lock().unwrap().epoch);
     w.delivered.push(e.clone());
     e
 }
@@ -445,7 +452,7 @@ fn walk_next(w: &mut World, r: &mut SplitMix, wt: &Value, pool: &Vec<Value>, ste
     let g = |k: &str, d: u64| wt.get(k).and_then(|x| x.as_u64()).unwrap_or(d);
     let v = view(w);
     let mut opts: Vec<(u64, Value)> = vec![];
-    if !pool.is_empty() { opts.push((g("htlc", 6), json!({"e": "htlc_pool"}))); }
+    if !pool.is_empty() { opts.push((g("htlc", 5), json!({"e": "htlc_pool"}))); }
     for (h, c, k) in v.unprocessed.iter() {
         let pend_wait = k == "wait" && wait_is_pending(w, *h, *c);
         if pend_wait { opts.push((g("proc_pending_wait", 1), json!({"e": "proc", "h": h, "c": c, "fault": "none"}))); continue; }
@@ -463,17 +470,17 @@ fn walk_next(w: &mut World, r: &mut SplitMix, wt: &Value, pool: &Vec<Value>, ste
     }
     for (h, c) in v.replied.iter() { opts.push((g("deliver", 30), json!({"e": "deliver", "h": h, "c": c}))); }
     for (h, p) in v.pend_parts.iter() {
-        opts.push((g("part_done", 6), json!({"e": "part", "h": h, "pid": p, "st": "done"})));
+        opts.push((g("part_done", 3), json!({"e": "part", "h": h, "pid": p, "st": "done"})));
         let codes = [202, 203, 204, 209];
-        opts.push((g("part_fail", 6), json!({"e": "part", "h": h, "pid": p, "st": "fail", "code": codes[r.below(4) as usize]})));
+        opts.push((g("part_fail", 3), json!({"e": "part", "h": h, "pid": p, "st": "fail", "code": codes[r.below(4) as usize]})));
     }
     for (h, c) in v.running.iter() {
-        opts.push((g("newpart", 8), json!({"e": "newpart", "h": h, "c": c})));
+        opts.push((g("newpart", 10), json!({"e": "newpart", "h": h, "c": c})));
         if v.has_done.contains(h) { opts.push((g("payfin_complete", 8), json!({"e": "payfin", "h": h, "c": c, "out": "complete"}))); }
-        opts.push((g("payfin_pending", 2), json!({"e": "payfin", "h": h, "c": c, "out": "pending"})));
-        opts.push((g("payfin_failed_warn", 2), json!({"e": "payfin", "h": h, "c": c, "out": "failed_warn"})));
+        opts.push((g("payfin_pending", 4), json!({"e": "payfin", "h": h, "c": c, "out": "pending"})));
+        opts.push((g("payfin_failed_warn", 3), json!({"e": "payfin", "h": h, "c": c, "out": "failed_warn"})));
         if !v.busy.contains(h) { opts.push((g("payfin_failed", 3), json!({"e": "payfin", "h": h, "c": c, "out": "failed"}))); }
-        opts.push((g("payfin_error", 2), json!({"e": "payfin", "h": h, "c": c, "out": "error", "err": "210"})));
+        opts.push((g("payfin_error", 3), json!({"e": "payfin", "h": h, "c": c, "out": "error", "err": "210"})));
     }
     let mpp = w.cfg["mpp_ms"].as_u64().unwrap_or(60000);
     let ticks = [1000u64, 1000, 5000, (mpp / 2 / 1000) * 1000, mpp.saturating_sub(1000), mpp, mpp + 1000];
@@ -494,7 +501,7 @@ pub fn run_case(case: &Value) -> Value {
     let node: Shared = Arc::new(Mutex::new(Node::default()));
     let mut w = World { cfg: cfg.clone(), node: node.clone(), invoices: vec![], hashes: vec![], preimages: BTreeMap::new(), att_ord: BTreeMap::new(),
         responses: Arc::new(Mutex::new(vec![])), notes: Arc::new(Mutex::new(vec![])), height: Arc::new(AtomicU32::new(0)), panics_seen: PANICS.load(Ordering::SeqCst),
-        skew_guard: BTreeMap::new(), skewed: false, next_uid: 0, delivered: vec![], answered: vec![] };
+        skew_guard: BTreeMap::new(), skewed: false, next_uid: 0, delivered: vec![], answered: vec![], resolved: vec![] };
     // invoices: either descriptors (built here) or {"raw": bolt11}
     for d in case["invoices"].as_array().cloned().unwrap_or_default() {
         let s = match d.get("raw").and_then(|r| r.as_str()) { Some(r) => r.to_string(), None => world::make_invoice(&d) };
@@ -526,13 +533,20 @@ pub fn run_case(case: &Value) -> Value {
     }
     let mut events: Vec<Value> = vec![];
     let mut steps: Vec<Value> = vec![];
-    let script: Vec<Value> = case.get("script").and_then(|s| s.as_array()).cloned().unwrap_or_default();
+    let mut script: Vec<Value> = case.get("script").and_then(|s| s.as_array()).cloned().unwrap_or_default();
+    let mut suffix: Option<Vec<Value>> = case.get("suffix").and_then(|s| s.as_array()).cloned();
     let walk = case.get("walk").cloned();
     let mut rng = SplitMix(walk.as_ref().and_then(|w| w["seed"].as_u64()).unwrap_or(1));
     let max_steps = walk.as_ref().and_then(|w| w["steps"].as_u64()).unwrap_or(0) as usize;
     let pool: Vec<Value> = case.get("pool").and_then(|p| p.as_array()).cloned().unwrap_or_default();
     let mut si = 0usize;          // script cursor
     let mut drain_budget = 0usize;
+    let crash_at: Vec<u64> = case.get("crash_at").and_then(|c| c.as_array()).map(|a| a.iter().filter_map(|x| x.as_u64()).collect()).unwrap_or_default();
+    let mut crash_done: Vec<u64> = vec![];
+    let after_crash: Vec<Value> = case.get("after_crash").and_then(|s| s.as_array()).cloned().unwrap_or_default();
+    let fault_at: Vec<Value> = case.get("fault_at").and_then(|s| s.as_array()).cloned().unwrap_or_default();
+    let mut nproc: BTreeMap<String, u64> = BTreeMap::new();
+    let mut finale_ticks = 0usize;
     let mut walked = 0usize;
     let mut done = false;
     while !done {
@@ -551,6 +565,53 @@ pub fn run_case(case: &Value) -> Value {
                         drain_budget -= 1;
                         if x.is_empty() || drain_budget == 0 { si += 1; drain_budget = 0; continue; }
                         x[0].clone()
+                    } else if e["e"] == "finale" {
+                        // drive everything to quiescence without faults: drain; finish running pays; resolve
+                        // pending parts; let the MPP timer expire. mode "coop": pays complete, else they fail.
+                        if drain_budget == 0 { drain_budget = 600; }
+                        drain_budget -= 1;
+                        if drain_budget == 0 { si += 1; continue; }
+                        let coop = e.get("mode").and_then(|m| m.as_str()) == Some("coop");
+                        let x = expand(&mut w, &json!({"e": "drain_step"}));
+                        if !x.is_empty() { x[0].clone() } else {
+                            let v = view(&mut w);
+                            if let Some((h, c)) = v.running.first() {
+                                if coop {
+                                    if v.has_done.contains(h) { json!({"e": "payfin", "h": h, "c": c, "out": "complete"}) }
+                                    else if let Some((_, p)) = v.pend_parts.iter().find(|(hh, _)| hh == h) { json!({"e": "part", "h": h, "pid": p, "st": "done"}) }
+                                    else { json!({"e": "newpart", "h": h, "c": c}) }
+                                } else if let Some((_, p)) = v.pend_parts.iter().find(|(hh, _)| hh == h) { json!({"e": "part", "h": h, "pid": p, "st": "fail", "code": 203}) }
+                                else if v.has_done.contains(h) { json!({"e": "payfin", "h": h, "c": c, "out": "complete"}) }
+                                else { json!({"e": "payfin", "h": h, "c": c, "out": "failed"}) }
+                            } else if let Some((h, p)) = v.pend_parts.first() {
+                                let done = e.get("old_parts").and_then(|m| m.as_str()) == Some("done");
+                                if done { json!({"e": "part", "h": h, "pid": p, "st": "done"}) } else { json!({"e": "part", "h": h, "pid": p, "st": "fail", "code": 204}) }
+                            } else {
+                                let unanswered = w.delivered.iter().any(|d| !w.answered.contains(&d["uid"].as_u64().unwrap()) && d["epoch"].as_u64() == Some(w.node.lock().unwrap().epoch));
+                                let ticks = e.get("_ticks").and_then(|t| t.as_u64()).unwrap_or(0);
+                                if unanswered && w.skew_guard.is_empty() && finale_ticks < 3 {
+                                    finale_ticks += 1;
+                                    let mpp = w.cfg["mpp_ms"].as_u64().unwrap_or(60000);
+                                    json!({"e": "tick", "ms": ((mpp / 1000) + 1) * 1000})
+                                } else { si += 1; drain_budget = 0; finale_ticks = 0; continue; }
+                            }
+                        }
+                    } else if e["e"] == "replay_unanswered" {
+                        // re-deliver (one per round) every delivered htlc that has no answer yet and was not yet replayed in this epoch
+                        let epoch = w.node.lock().unwrap().epoch;
+                        let cand = w.delivered.iter().position(|d| !w.answered.contains(&d["uid"].as_u64().unwrap()) && d["epoch"].as_u64() != Some(epoch)
+                            && !w.delivered.iter().any(|d2| d2["epoch"].as_u64() == Some(epoch) && d2.get("orig") == Some(&d["orig"])));
+                        match cand {
+                            Some(i) => { let mut d = w.delivered[i].clone(); d["e"] = json!("htlc"); htlc_event(&mut w, &d) }
+                            None => { si += 1; continue; }
+                        }
+                    } else if e["e"] == "probe_retry" {
+                        si += 1;
+                        // if the last delivered htlc was answered with something other than resolve, deliver a copy
+                        let last = match w.delivered.last() { Some(l) => l.clone(), None => continue };
+                        let uid = last["uid"].as_u64().unwrap();
+                        if w.resolved.contains(&uid) { continue; }
+                        let mut d = last.clone(); d["e"] = json!("htlc"); htlc_event(&mut w, &d)
                     } else {
                         si += 1;
                         if e["e"] == "htlc" { htlc_event(&mut w, &e) }
@@ -582,7 +643,35 @@ pub fn run_case(case: &Value) -> Value {
                         }
                         None => continue,
                     }
-                } else { done = true; return false; };
+                } else if let Some(sfx) = suffix.take() { script = sfx; si = 0; continue; }
+                else { done = true; return false; };
+                let mut ev = ev;
+                if crash_at.contains(&(events.len() as u64)) && !crash_done.contains(&(events.len() as u64)) {
+                    crash_done.push(events.len() as u64);
+                    // the story is abandoned; continue with the after_crash script
+                    script = after_crash.clone(); si = 0; drain_budget = 0;
+                    // an htlc that was about to be delivered never reached the plugin
+                    if ev["e"] == "htlc" { w.delivered.pop(); }
+                    ev = json!({"e": "crash"});
+                }
+                if ev["e"] == "proc" && !fault_at.is_empty() {
+                    // kind of the call about to be processed
+                    let kind = {
+                        let n = w.node.lock().unwrap();
+                        let h = &w.hashes[ev["h"].as_u64().unwrap() as usize];
+                        match find_call(&n, h, ev["c"].as_u64().unwrap() as usize).map(|ci| n.calls[ci].q.clone()) {
+                            Some(Q::WriteState { .. }) | Some(Q::WriteAtt { .. }) => "write",
+                            Some(Q::Pay { .. }) => "pay",
+                            _ => "read",
+                        }
+                    };
+                    let cnt = nproc.entry(kind.to_string()).or_insert(0u64);
+                    if let Some(f) = fault_at.iter().find(|f| f["k"].as_u64() == Some(*cnt) && f.get("kind").and_then(|k| k.as_str()).unwrap_or("write") == kind) {
+                        ev["fault"] = if kind == "pay" { json!("rej") } else { f["fault"].clone() };
+                        ev["err"] = f.get("err").cloned().unwrap_or(json!("transport"));
+                    }
+                    *cnt += 1;
+                }
                 if ev["e"] == "crash" { events.push(ev); steps.push(json!({"out": []})); return true; }
                 let (enabled, reply) = apply(&mut w, &mgr, &ev).await;
                 if !enabled { continue; }
